@@ -165,6 +165,12 @@ func renderApp(a App) obj {
 		if a.Fault == 2 {
 			o["bogus"] = 1
 		}
+		if a.Fault == 7 {
+			// per-listener protocols: the first listener h2c WITHOUT h1, the others the server's
+			lp := make([]any, len(listen))
+			lp[0] = []any{"h2c"}
+			o["servers"].(obj)["s"].(obj)["listen_protocols"] = lp
+		}
 		return o
 	}
 	mods := []any{}
@@ -368,6 +374,9 @@ func abstractApp(key string, v any) (App, bool) {
 		f := 0
 		if _, ok := o["bogus"]; ok {
 			f = 2
+		}
+		if _, ok := s["listen_protocols"]; ok {
+			f = 7
 		}
 		return App{3, tag, f, listen, mods}, true
 	}
